@@ -183,9 +183,12 @@ func errOperandAlwaysNonNil(v ssa.Value) bool {
 
 // RuleWalkSkip: a per-file callback never skips the rest of a directory
 // because of a file.
-func (c *Ctx) RuleWalkSkip() *Result {
-	res := &Result{Rule: "WALK-SKIP", MinInst: 3}
-	for _, name := range []string{"update", "compare", "format"} {
+func (c *Ctx) RuleWalkSkip(names ...string) *Result {
+	if len(names) == 0 {
+		names = []string{"update", "compare", "format"}
+	}
+	res := &Result{Rule: "WALK-SKIP", MinInst: len(names)}
+	for _, name := range names {
 		cmd := c.Commands().ByName[name]
 		if cmd == nil {
 			continue
@@ -1165,6 +1168,197 @@ func (c *Ctx) RuleProcStart() *Result {
 		}
 	}
 	return res
+}
+
+// lenGuardFor: an edge predicate "len(v) > k is known".
+func lenGuardFor(v ssa.Value, k int64) func(cond ssa.Value, val bool) bool {
+	return func(cond ssa.Value, val bool) bool {
+		b, ok := cond.(*ssa.BinOp)
+		if !ok {
+			return false
+		}
+		lc, ok := b.X.(*ssa.Call)
+		if !ok {
+			return false
+		}
+		bi, ok := lc.Call.Value.(*ssa.Builtin)
+		if !ok || bi.Name() != "len" || lc.Call.Args[0] != v {
+			return false
+		}
+		n, ok := constInt(b.Y)
+		if !ok {
+			return false
+		}
+		switch b.Op {
+		case token.GTR:
+			return val && n >= k
+		case token.GEQ:
+			return val && n >= k+1
+		case token.EQL:
+			return (val && n >= k+1) || (!val && n == 0 && k == 0)
+		case token.LSS:
+			return !val && n >= k+1
+		case token.LEQ:
+			return !val && n >= k
+		case token.NEQ:
+			return (!val && n >= k+1) || (val && n == 0 && k == 0)
+		}
+		return false
+	}
+}
+
+// stringIndexGuarded: the string v is known to be longer than k at instruction at (a length test
+// in the function, or, for a parameter, at every static call site, followed up to two callers up).
+func (c *Ctx) stringIndexGuarded(v ssa.Value, k int64, at ssa.Instruction, depth int) bool {
+	if c.guardedByEdges(at, lenGuardFor(v, k)) {
+		return true
+	}
+	par, ok := v.(*ssa.Parameter)
+	if !ok || depth >= 2 {
+		return false
+	}
+	fn := par.Parent()
+	pi := paramIndex(fn, par)
+	n := 0
+	for _, e := range c.Graph().In[fn] {
+		cc := callCommon(e.Site)
+		if cc == nil || staticFn(cc) != fn || pi < 0 || pi >= len(cc.Args) {
+			return false // a caller that cannot be inspected (interface dispatch, function value)
+		}
+		n++
+		if !c.stringIndexGuarded(cc.Args[pi], k, e.Site, depth+1) {
+			return false
+		}
+	}
+	return n > 0
+}
+
+// RuleStrIndex (C19): s[k] with a constant k on a string parameter, in code
+// reachable from Operator.Run, needs a length test in the function or at every caller.
+func (c *Ctx) RuleStrIndex() *Result {
+	res := &Result{Rule: "STR-INDEX", MinInst: 0}
+	scope := c.reachFromNamed(func(n string) bool { return n == "(*regex/operators.Operator).Run" })
+	n := 0
+	for _, fn := range c.P.RepoFns {
+		if !scope[load.FnName(fn)] {
+			continue
+		}
+		n++
+		allInstrs(fn, func(in ssa.Instruction) {
+			var X, I ssa.Value
+			switch x := in.(type) {
+			case *ssa.Lookup:
+				X, I = x.X, x.Index
+			case *ssa.Index:
+				X, I = x.X, x.Index
+			default:
+				return
+			}
+			lk := in
+			par, ok := X.(*ssa.Parameter)
+			if !ok {
+				return
+			}
+			if b, ok := par.Type().Underlying().(*types.Basic); !ok || b.Kind() != types.String {
+				return
+			}
+			k, ok := constInt(I)
+			if !ok {
+				return
+			}
+			res.Instances++
+			key := fmt.Sprintf("%s:%s[%d]", load.FnName(fn), par.Name(), k)
+			if c.stringIndexGuarded(par, k, lk, 0) {
+				res.ok(key, c.P.InstrPos(lk), "guarded by a length test in the function or at every call site")
+			} else {
+				res.bad(key, c.P.InstrPos(lk), fmt.Sprintf("%s[%d] is read without a length test here or at the call sites: an empty line (an empty block, an entry that is only a suffix marker) ends in an index-out-of-range panic", par.Name(), k))
+			}
+		})
+	}
+	res.Instances++
+	res.ok("scope:constant index into a string parameter", "-", fmt.Sprintf("%d functions reachable from Operator.Run scanned", n))
+	return res
+}
+
+// RuleRangeIndex (C19): inside `for i := range A`, the index i is used on A
+// (or on a slice made with len(A)); using it on another slice is the
+// copy-and-paste slip that panics or overwrites the wrong list.
+func (c *Ctx) RuleRangeIndex() *Result {
+	res := &Result{Rule: "RANGE-INDEX", MinInst: 0}
+	scope := c.reachFromNamed(func(n string) bool { return n == "(*regex/operators.Operator).Run" })
+	n := 0
+	for _, fn := range c.P.RepoFns {
+		if !scope[load.FnName(fn)] || len(fn.Blocks) == 0 {
+			continue
+		}
+		n++
+		// range-over-slice loops: phi i with a condition i < len(A) in the header
+		for _, l := range naturalLoops(fn) {
+			iff, ok := l.header.Instrs[len(l.header.Instrs)-1].(*ssa.If)
+			if !ok {
+				continue
+			}
+			cmp, ok := iff.Cond.(*ssa.BinOp)
+			if !ok || cmp.Op != token.LSS {
+				continue
+			}
+			lc, ok := cmp.Y.(*ssa.Call)
+			if !ok {
+				continue
+			}
+			bi, ok := lc.Call.Value.(*ssa.Builtin)
+			if !ok || bi.Name() != "len" {
+				continue
+			}
+			A := lc.Call.Args[0]
+			if _, isSlice := A.Type().Underlying().(*types.Slice); !isSlice {
+				continue
+			}
+			idx := cmp.X
+			// rotated range loops: the compared value is i+1 of the phi
+			var idxs []ssa.Value
+			idxs = append(idxs, idx)
+			if b, ok := idx.(*ssa.BinOp); ok && b.Op == token.ADD {
+				idxs = append(idxs, b.X)
+			}
+			for _, iv := range idxs {
+				for _, r := range referrers(iv) {
+					ia, ok := r.(*ssa.IndexAddr)
+					if !ok || ia.Index != iv || !l.body[ia.Block()] {
+						continue
+					}
+					if _, isSlice := ia.X.Type().Underlying().(*types.Slice); !isSlice {
+						continue
+					}
+					res.Instances++
+					key := fmt.Sprintf("%s:index of a range loop used on another slice", load.FnName(fn))
+					if ia.X == A || sameLoad(ia.X, A) || madeWithLenOf(ia.X, A) {
+						res.ok(key, c.P.InstrPos(ia), "the index is used on the slice that is ranged over (or one made with its length)")
+					} else {
+						res.bad(key, c.P.InstrPos(ia), "the index of a loop over one slice is used on a different slice whose length is unrelated: the wrong list is overwritten, or the access runs past its end and panics")
+					}
+				}
+			}
+		}
+	}
+	res.Instances++
+	res.ok("scope:range index discipline", "-", fmt.Sprintf("%d functions reachable from Operator.Run scanned", n))
+	return res
+}
+
+func madeWithLenOf(v, A ssa.Value) bool {
+	mk, ok := v.(*ssa.MakeSlice)
+	if !ok {
+		return false
+	}
+	for _, x := range []ssa.Value{mk.Len, mk.Cap} {
+		if lc, ok := x.(*ssa.Call); ok {
+			if bi, ok := lc.Call.Value.(*ssa.Builtin); ok && bi.Name() == "len" && (lc.Call.Args[0] == A || sameLoad(lc.Call.Args[0], A)) {
+				return true
+			}
+		}
+	}
+	return false
 }
 
 // sliceMinLen: a lower bound for the length of the slice a at instruction at of
